@@ -1,9 +1,70 @@
 (* C06 -- tzfile reports exactly what the TZif data says at every instant.
-   Statements only; proofs are in coq/tzfile/*Thm.v. *)
+   Statements only; proofs are in coq/tzfile/*Thm.v.  `raw` is the version-1 data block,
+   render_tzif its byte rendering, parse_tzif / build / read_tzfile the decoder of the model;
+   data_at r u is the (gmtoff, isdst, abbreviation) the raw data assigns to u, written on the raw
+   block without the decoder's helpers (TzData).  Non-vacuity: tzfile/TzExamples.v. *)
 From Coq Require Import ZArith List Bool.
-From V Require Import tzfile.TzModel tzfile.TzSpec tzfile.TzData tzfile.TzFixedThm.
+From V Require Import tzfile.TzModel tzfile.TzSpec tzfile.TzData tzfile.TzBisect tzfile.TzRenderThm
+  tzfile.TzDecodeThm tzfile.TzReportThm tzfile.TzParseThm tzfile.TzC06Thm tzfile.TzTotalThm tzfile.TzAnyThm tzfile.TzBeforeThm.
+Import ListNotations.
 Open Scope Z_scope.
 
-Theorem C06_placeholder_fixed_off : forall o u, off (fixed_zone o) u = o.
-Proof. exact fixed_off. Qed.
-Print Assumptions C06_placeholder_fixed_off.
+(* the decoder inverts the renderer, whatever follows the version-1 block *)
+Theorem C06_read_render : forall r rest, wf_raw r = true -> parse_tzif (render_tzif r ++ rest) = Ok r.
+Proof. exact parse_render_lemma. Qed.
+Print Assumptions C06_read_render.
+
+(* every decoded file (at least one type) has the invariant the C04/C05 theorems assume *)
+Theorem C06_decoder_invariant : forall bytes r d, parse_tzif bytes = Ok r -> build r = Ok d ->
+  r_types r <> [] -> good d = true.
+Proof. exact read_good_lemma. Qed.
+Print Assumptions C06_decoder_invariant.
+
+(* decode o lookup: from the first to the last transition of the data the decoded zone reports the
+   data's offset (also as wall reading), abbreviation, and a zero dst() on standard types *)
+Theorem C06_tzfile_reports_data : forall r d u, build r = Ok d -> wf_data r = true ->
+  wf_zone (zone_of d) = true -> in_data_range r u = true ->
+  exists w f g isd ab, data_at r u = Some (g, isd, ab) /\ fromutc d u = Ok (w, f) /\ w = u + g /\
+    dt_utcoffset d w f = Ok g /\ tzname d w f = Ok (Some ab) /\ (isd = 0 -> dst d w f = Ok 0).
+Proof. exact reports_data_lemma. Qed.
+Print Assumptions C06_tzfile_reports_data.
+
+(* before the first transition: the data's first standard type (type 0 when all are DST) *)
+Theorem C06_reports_first_standard_type_before_first_transition : forall r d u t0 ts, build r = Ok d ->
+  wf_data r = true -> wf_zone (zone_of d) = true -> r_times r = t0 :: ts -> u < t0 ->
+  exists w f g isd ab, data_at r u = Some (g, isd, ab) /\ fromutc d u = Ok (w, f) /\ w = u + g /\
+    dt_utcoffset d w f = Ok g /\ tzname d w f = Ok (Some ab) /\ (isd = 0 -> dst d w f = Ok 0).
+Proof. exact reports_before_lemma. Qed.
+Print Assumptions C06_reports_first_standard_type_before_first_transition.
+
+Theorem C06_bytes_report_data : forall r rest d u, wf_data r = true ->
+  read_tzfile (render_tzif r ++ rest) = Ok d -> wf_zone (zone_of d) = true -> in_data_range r u = true ->
+  exists w f g isd ab, data_at r u = Some (g, isd, ab) /\ fromutc d u = Ok (w, f) /\ w = u + g /\
+    dt_utcoffset d w f = Ok g /\ tzname d w f = Ok (Some ab) /\ (isd = 0 -> dst d w f = Ok 0).
+Proof. exact bytes_report_data_lemma. Qed.
+Print Assumptions C06_bytes_report_data.
+
+(* no success hypothesis: well-formed data is always read successfully (the IndexError /
+   AttributeError constructors of the model are unreachable), the result has the decoder invariant
+   and reports the data *)
+Theorem C06_wellformed_data_is_read_and_reported : forall r rest, wf_data r = true ->
+  exists d, read_tzfile (render_tzif r ++ rest) = Ok d /\ good d = true /\
+    (wf_zone (zone_of d) = true -> forall u, in_data_range r u = true ->
+     exists w f g isd ab, data_at r u = Some (g, isd, ab) /\ fromutc d u = Ok (w, f) /\ w = u + g /\
+       dt_utcoffset d w f = Ok g /\ tzname d w f = Ok (Some ab) /\ (isd = 0 -> dst d w f = Ok 0)).
+Proof. exact bytes_total_report_lemma. Qed.
+Print Assumptions C06_wellformed_data_is_read_and_reported.
+
+(* files outside wf_zone (e.g. offset changes larger than the spacing of the transitions, where a
+   (wall, fold) pair cannot name every instant): the wall reading is still the instant plus the
+   data's offset; only sorted transition times are needed *)
+Theorem C06_wall_reading_any_spacing : forall r d u, build r = Ok d -> wf_data r = true ->
+  sortedb (r_times r) = true -> in_data_range r u = true ->
+  exists f g isd ab, data_at r u = Some (g, isd, ab) /\ fromutc d u = Ok (u + g, f).
+Proof. exact reports_wall_any_lemma. Qed.
+Print Assumptions C06_wall_reading_any_spacing.
+
+(* the model's binary search (CPython's bisect_right) on a sorted list counts the elements <= x *)
+Theorem C06_bisect_right_sorted : forall l x, sortedb l = true -> bisect_right l x = Some (count_le l x).
+Proof. exact bisect_right_sorted. Qed.
+Print Assumptions C06_bisect_right_sorted.
